@@ -75,3 +75,276 @@ Proof.
     - rewrite (Z.testbit_neg_r _ (n - o)) by lia. apply andb_false_r. }
   rewrite (Z.add_nocarry_lxor _ _ D). symmetry. apply Z.lxor_lor. exact D.
 Qed.
+
+(* ---------- the register access layer ---------- *)
+Inductive shape := ShFull | ShLow8 | ShLow16 | ShLow32 | ShHigh8.
+Definition shape_bits (fbits : Z) (s : shape) : Z :=
+  match s with ShFull => fbits | ShLow8 | ShHigh8 => 8 | ShLow16 => 16 | ShLow32 => 32 end.
+Definition shape_offset (s : shape) : Z := match s with ShHigh8 => 8 | _ => 0 end.
+(* eax is a sub-register only in the amd64 table *)
+Definition shape_valid (fbits : Z) (s : shape) : Prop :=
+  (fbits = 32 \/ fbits = 64) /\ (s = ShLow32 -> fbits = 64).
+Definition xreg_of (n : N) (fbits : Z) (s : shape) : xreg :=
+  mkreg n fbits (shape_offset s) (shape_bits fbits s) (match s with ShFull => true | _ => false end).
+
+Lemma xreg_of_shape_ok n fbits s : shape_valid fbits s -> reg_shape_ok (xreg_of n fbits s) = true.
+Proof. intros [[->| ->] H]; destruct s; try reflexivity; specialize (H eq_refl); discriminate. Qed.
+
+(* what the architecture says a read / a write of the sub-register does to the full register value x *)
+Definition arch_read (s : shape) (fbits x : Z) : Z :=
+  match s with ShHigh8 => X86.regh_read 0 [x] | _ => X86.reg_read (shape_bits fbits s) 0 [x] end.
+Definition arch_write (s : shape) (fbits x y : Z) : Z :=
+  match s with
+  | ShHigh8 => X86.rget (X86.regh_write 0 y [x]) 0
+  | _ => X86.rget (X86.reg_write (shape_bits fbits s) 0 y [x]) 0
+  end.
+
+Lemma den_full en n fbits x :
+  env_get en (n, None) = Some (mkc fbits x) ->
+  den en (EScalar (mks n fbits None)) = Ok (mkc fbits x).
+Proof. intros H. cbn. unfold skey_of. cbn. rewrite H. cbn. rewrite Z.eqb_refl. reflexivity. Qed.
+
+Theorem reg_get_correct en n fbits s x :
+  shape_valid fbits s -> 0 <= x < 2 ^ fbits ->
+  env_get en (n, None) = Some (mkc fbits x) ->
+  exists e, reg_get (xreg_of n fbits s) = Ok e /\
+            den en e = Ok (mkc (shape_bits fbits s) (arch_read s fbits x)).
+Proof.
+  intros [[->| ->] Hs] Hx He; destruct s; try (specialize (Hs eq_refl); discriminate);
+    (eexists; split; [reflexivity|]);
+    cbv [full_scalar xreg_of xr_full xr_fbits shape_offset shape_bits]; cbn [den bind]; unfold skey_of; cbn [sname sssa sbits]; rewrite He; cbn [cbits bind]; rewrite ?Z.eqb_refl; cbn [bind];
+    unfold arch_read, X86.reg_read, X86.regh_read, X86.rget; cbn [shape_bits Z.to_nat nth];
+    try reflexivity.
+  all: cbn; f_equal; f_equal; unfold U; try rewrite Z.mod_small by lia; try reflexivity.
+  all: idtac.
+Qed.
+
+Lemma set_low x y w b M : M = Z.ldiff (Z.ones w) (field b 0) -> 0 <= x < 2 ^ w -> 0 <= y < 2 ^ b -> 0 <= b <= w ->
+  Z.lor (Z.land x M) y = x - x mod 2 ^ b + y.
+Proof.
+  intros -> Hx Hy Hb.
+  rewrite land_clear_field by lia.
+  pose proof (lor_disjoint_field x y w b 0 Hx Hy) as L.
+  rewrite Z.pow_0_r, Z.div_1_r, !Z.mul_1_r in *. apply L; lia.
+Qed.
+Lemma set_high x y w M : M = Z.ldiff (Z.ones w) (field 8 8) -> 0 <= x < 2 ^ w -> 0 <= y < 256 -> 16 <= w ->
+  Z.lor (Z.land x M) (y * 256) = x - ((x / 256) mod 256) * 256 + y * 256.
+Proof.
+  intros -> Hx Hy Hw.
+  rewrite land_clear_field by lia.
+  apply (lor_disjoint_field x y w 8 8); lia.
+Qed.
+
+Theorem reg_set_correct en n fbits s x v y :
+  shape_valid fbits s -> 0 <= x < 2 ^ fbits -> 0 <= y < 2 ^ shape_bits fbits s ->
+  env_get en (n, None) = Some (mkc fbits x) ->
+  e_bits v = shape_bits fbits s -> den en v = Ok (mkc (shape_bits fbits s) y) ->
+  exists e, reg_set (xreg_of n fbits s) v = Ok [OAssign (mks n fbits None) e] /\
+            den en e = Ok (mkc fbits (arch_write s fbits x y)).
+Proof.
+  intros [[->| ->] Hs] Hx Hy He Hb Hv; destruct s; try (specialize (Hs eq_refl); discriminate);
+    cbn [shape_bits] in *;
+    unfold reg_set, xreg_of, full_scalar, mk_ext, mk_bin;
+    cbn [xr_is_full xr_offset xr_bits xr_fbits xr_full shape_offset shape_bits e_bits sbits expr_const new_big cbits];
+    rewrite ?Hb; cbn [Z.eqb Z.ltb Z.leb Z.compare Pos.compare Pos.compare_cont orb negb bind is_cmp];
+    (eexists; split; [reflexivity|]);
+    cbn [den bind]; unfold skey_of; cbn [sname sssa sbits]; rewrite ?He, ?Hv; cbn [cbits bind]; rewrite ?Z.eqb_refl; cbn [bind].
+  all: unfold arch_write, X86.reg_write, X86.regh_write, X86.rget, X86.rset; cbn [shape_bits Z.to_nat nth X86.lset].
+  all: try reflexivity.
+  all: cbn; f_equal; f_equal.
+  all: unfold s_or, s_and, U.
+  all: try (first [apply (set_low x y 32 8); [reflexivity|lia..]|apply (set_low x y 32 16); [reflexivity|lia..]|apply (set_low x y 64 8); [reflexivity|lia..]|apply (set_low x y 64 16); [reflexivity|lia..]]).
+  all: rewrite (Z.mod_small (y * 256)) by lia; first [apply (set_high x y 32); [reflexivity|lia..]|apply (set_high x y 64); [reflexivity|lia..]].
+Qed.
+
+Theorem reg_get_set_correct en n fbits s x :
+  shape_valid fbits s -> 0 <= x < 2 ^ fbits -> env_get en (n, None) = Some (mkc fbits x) ->
+  (exists e, reg_get (xreg_of n fbits s) = Ok e /\
+             den en e = Ok (mkc (shape_bits fbits s) (arch_read s fbits x))) /\
+  (forall v y, 0 <= y < 2 ^ shape_bits fbits s -> e_bits v = shape_bits fbits s ->
+               den en v = Ok (mkc (shape_bits fbits s) y) ->
+     exists e, reg_set (xreg_of n fbits s) v = Ok [OAssign (mks n fbits None) e] /\
+               den en e = Ok (mkc fbits (arch_write s fbits x y))).
+Proof.
+  intros Hs Hx He. split.
+  - apply reg_get_correct; assumption.
+  - intros v y Hy Hb Hv. apply reg_set_correct; assumption.
+Qed.
+
+(* the code before the fix: writing ah keeps only the old ah and clears everything else *)
+Lemma reg_set_prefix_refuted :
+  let en := [((0%N, None), mkc 64 1311768467463790320)] in      (* rax = 0x1234_5678_9abc_def0 *)
+  let v := EConst (mkc 8 85) in                                 (* mov ah, 0x55 *)
+  exists e, reg_set_prefix (xreg_of 0%N 64 ShHigh8) v = Ok [OAssign (mks 0%N 64 None) e] /\
+            den en e = Ok (mkc 64 57088) /\                    (* 0xde00 | 0x5500 = 0xdf00.. : not the architecture's *)
+            arch_write ShHigh8 64 1311768467463790320 85 = 1311768467463755248.
+Proof. cbv zeta. eexists. split; [reflexivity|]. split; vm_compute; reflexivity. Qed.
+
+(* ---------- flag helpers ---------- *)
+Lemma msb_testbit a w : 1 <= w -> 0 <= a < 2 ^ w -> Z.testbit a (w - 1) = (2 ^ (w - 1) <=? a).
+Proof.
+  intros Hw Ha.
+  assert (P: 2 ^ w = 2 * 2 ^ (w - 1)) by (rewrite <- Z.pow_succ_r by lia; f_equal; lia).
+  assert (Q: 0 < 2 ^ (w - 1)) by (apply Z.pow_pos_nonneg; lia).
+  rewrite Z.testbit_odd, Z.shiftr_div_pow2 by lia.
+  destruct (Z.leb_spec (2 ^ (w - 1)) a) as [H|H].
+  - replace (a / 2 ^ (w - 1)) with 1; [reflexivity|]. apply Z.div_unique with (a - 2 ^ (w - 1)); lia.
+  - rewrite Z.div_small by lia. reflexivity.
+Qed.
+
+Definition width_ok (w : Z) : Prop := w = 8 \/ w = 16 \/ w = 32 \/ w = 64.
+
+Lemma bit_of_msb x w : 1 <= w -> 0 <= x < 2 ^ w -> (x / 2 ^ (w - 1)) mod 2 = Z.b2z (Z.testbit x (w - 1)).
+Proof. intros Hw Hx. symmetry. apply Z.testbit_spec'. lia. Qed.
+
+Lemma land_range a b w : 0 <= w -> 0 <= a < 2 ^ w -> 0 <= b -> 0 <= Z.land a b < 2 ^ w.
+Proof.
+  intros Hw Ha Hb. split; [apply Z.land_nonneg; lia|].
+  destruct (Z.eq_dec (Z.land a b) 0) as [->|N]; [apply Z.pow_pos_nonneg; lia|].
+  apply Z.log2_lt_pow2; [pose proof (Z.land_nonneg a b); lia|].
+  eapply Z.le_lt_trans; [apply Z.log2_land; lia|].
+  destruct (Z.eq_dec a 0) as [->|Na]; [rewrite Z.land_0_l in N; contradiction|].
+  apply Z.min_lt_iff. left. apply Z.log2_lt_pow2; lia.
+Qed.
+Lemma lxor_range a b w : 0 <= w -> 0 <= a < 2 ^ w -> 0 <= b < 2 ^ w -> 0 <= Z.lxor a b < 2 ^ w.
+Proof.
+  intros Hw Ha Hb. assert (NN: 0 <= Z.lxor a b) by (apply Z.lxor_nonneg; lia). split; [exact NN|].
+  destruct (Z.eq_dec (Z.lxor a b) 0) as [->|N]; [apply Z.pow_pos_nonneg; lia|].
+  assert (Wp: 0 < w).
+  { destruct (Z.eq_dec w 0) as [->|]; [|lia]. change (2 ^ 0) with 1 in *.
+    assert (a = 0) by lia. assert (b = 0) by lia. subst. cbn in N. contradiction. }
+  apply Z.log2_lt_pow2; [lia|].
+  eapply Z.le_lt_trans; [apply Z.log2_lxor; lia|].
+  apply Z.max_lub_lt.
+  - destruct (Z.eq_dec a 0) as [->|Na]; [cbn; lia|apply Z.log2_lt_pow2; lia].
+  - destruct (Z.eq_dec b 0) as [->|Nb]; [cbn; lia|apply Z.log2_lt_pow2; lia].
+Qed.
+
+(* the value computed by set_of(result, lhs, rhs, subtract) *)
+Definition of_value (w a b r : Z) (subtract : bool) : Z :=
+  let e0 := Z.lxor a b in
+  let e0 := if subtract then e0 else Z.lxor e0 (2 ^ w - 1) in
+  (Z.land e0 (Z.lxor a r) / 2 ^ (w - 1)) mod 2.
+
+Lemma of_value_bits w a b r sub : 1 <= w -> 0 <= a < 2 ^ w -> 0 <= b < 2 ^ w -> 0 <= r < 2 ^ w ->
+  of_value w a b r sub =
+  Z.b2z ((if sub then xorb (2 ^ (w - 1) <=? a) (2 ^ (w - 1) <=? b)
+          else negb (xorb (2 ^ (w - 1) <=? a) (2 ^ (w - 1) <=? b)))
+         && xorb (2 ^ (w - 1) <=? a) (2 ^ (w - 1) <=? r)).
+Proof.
+  intros Hw Ha Hb Hr. unfold of_value.
+  assert (Hm: 0 <= 2 ^ w - 1 < 2 ^ w) by (pose proof (Z.pow_pos_nonneg 2 w); lia).
+  assert (Hab: 0 <= Z.lxor a b < 2 ^ w) by (apply lxor_range; lia).
+  assert (Har: 0 <= Z.lxor a r < 2 ^ w) by (apply lxor_range; lia).
+  assert (Tm: Z.testbit (2 ^ w - 1) (w - 1) = true).
+  { replace (2 ^ w - 1) with (Z.ones w) by (rewrite Z.ones_equiv; lia). apply Z.ones_spec_low. lia. }
+  destruct sub.
+  - rewrite bit_of_msb by (try lia; apply land_range; lia).
+    rewrite Z.land_spec, !Z.lxor_spec, !msb_testbit by lia. reflexivity.
+  - assert (H2: 0 <= Z.lxor (Z.lxor a b) (2 ^ w - 1) < 2 ^ w) by (apply lxor_range; lia).
+    rewrite bit_of_msb by (try lia; apply land_range; lia).
+    rewrite Z.land_spec, !Z.lxor_spec, Tm, !msb_testbit by lia.
+    destruct (xorb (2 ^ (w - 1) <=? a) (2 ^ (w - 1) <=? b)); reflexivity.
+Qed.
+
+Ltac pows :=
+  repeat match goal with
+         | |- context [Z.pow 2 ?n] => let v := eval vm_compute in (Z.pow 2 n) in change (Z.pow 2 n) with v
+         | H : context [Z.pow 2 ?n] |- _ => let v := eval vm_compute in (Z.pow 2 n) in change (Z.pow 2 n) with v in H
+         end.
+Ltac split_ifs :=
+  repeat match goal with
+         | |- context [if ?c then _ else _] => destruct c eqn:?
+         end.
+Ltac flag_arith :=
+  change X86.b2z with Z.b2z;
+  unfold X86.sovf, X86.Sg, X86.msb, ConstSpec.S, U in *; pows; split_ifs; cbn [Z.b2z xorb negb andb orb]; lia.
+
+(* set_of's formula is the architectural overflow flag, for all operand values at the four widths *)
+Theorem of_add_correct w a b : width_ok w -> 0 <= a < 2 ^ w -> 0 <= b < 2 ^ w ->
+  of_value w a b (U w (a + b)) false = X86.b2z (X86.sovf w (X86.Sg w a + X86.Sg w b)).
+Proof.
+  intros Hw Ha Hb.
+  destruct Hw as [->|[->|[->| ->]]];
+    (rewrite of_value_bits by (try lia; try assumption; unfold U; apply Z.mod_pos_bound; reflexivity));
+    flag_arith.
+Qed.
+
+Theorem of_sub_correct w a b : width_ok w -> 0 <= a < 2 ^ w -> 0 <= b < 2 ^ w ->
+  of_value w a b (U w (a - b)) true = X86.b2z (X86.sovf w (X86.Sg w a - X86.Sg w b)).
+Proof.
+  intros Hw Ha Hb.
+  destruct Hw as [->|[->|[->| ->]]];
+    (rewrite of_value_bits by (try lia; try assumption; unfold U; apply Z.mod_pos_bound; reflexivity));
+    flag_arith.
+Qed.
+
+(* set_cf (borrow form, used by sub/cmp/neg-likes): lhs <u result;  add: result <u lhs *)
+Theorem cf_sub_correct w a b : width_ok w -> 0 <= a < 2 ^ w -> 0 <= b < 2 ^ w ->
+  (a <? U w (a - b)) = (a <? b).
+Proof. intros Hw Ha Hb. destruct Hw as [->|[->|[->| ->]]]; unfold U in *; pows; lia. Qed.
+Theorem cf_add_correct w a b : width_ok w -> 0 <= a < 2 ^ w -> 0 <= b < 2 ^ w ->
+  (U w (a + b) <? a) = (2 ^ w <=? a + b).
+Proof. intros Hw Ha Hb. destruct Hw as [->|[->|[->| ->]]]; unfold U in *; pows; lia. Qed.
+(* set_sf: bit (w-1) of the result;  set_zf: result == 0 *)
+Theorem sf_correct w r : width_ok w -> 0 <= r < 2 ^ w ->
+  (r / 2 ^ (w - 1)) mod 2 = X86.b2z (X86.msb w r).
+Proof. intros Hw Hr. destruct Hw as [->|[->|[->| ->]]]; flag_arith. Qed.
+
+(* ---------- the flag helpers as IL: what the assigned expression denotes ---------- *)
+Section FlagHelpers.
+Variable en : senv.
+Variables (w a b r : Z) (lhs rhs result : expr).
+Hypothesis Hw : width_ok w.
+Hypothesis Ha : 0 <= a < 2 ^ w.
+Hypothesis Hb : 0 <= b < 2 ^ w.
+Hypothesis Hr : 0 <= r < 2 ^ w.
+Hypothesis Bl : e_bits lhs = w.
+Hypothesis Br : e_bits rhs = w.
+Hypothesis Bres : e_bits result = w.
+Hypothesis Dl : den en lhs = Ok (mkc w a).
+Hypothesis Dr : den en rhs = Ok (mkc w b).
+Hypothesis Dres : den en result = Ok (mkc w r).
+
+Ltac widths := destruct Hw as [E|[E|[E|E]]]; rewrite E in *.
+
+Lemma set_zf_den : exists e, set_zf result = Ok (OAssign (flag_scalar n_ZF) e) /\
+  den en e = Ok (mkc 1 (X86.b2z (r =? 0))).
+Proof.
+  unfold set_zf, mk_bin. rewrite Bres. cbn [expr_const e_bits new_big cbits]. rewrite Z.eqb_refl. cbn [negb bind].
+  eexists; split; [reflexivity|]. cbn [den bind]. rewrite Dres. cbn [bind den].
+  unfold sp_bin_c, expr_const, new_big; cbn [den bind cbits cval].
+  assert (T: trim 0 w = 0) by (unfold trim; apply Z.land_0_l). rewrite T.
+  rewrite Z.eqb_refl. cbn [negb sp_bin]. unfold s_cmpeq. destruct (r =? 0); reflexivity.
+Qed.
+
+Lemma set_cf_den : exists e, set_cf result lhs = Ok (OAssign (flag_scalar n_CF) e) /\
+  den en e = Ok (mkc 1 (X86.b2z (a <? r))).
+Proof.
+  unfold set_cf, mk_bin. rewrite Bl, Bres, Z.eqb_refl. cbn [negb bind].
+  eexists; split; [reflexivity|]. cbn [den bind]. rewrite Dl, Dres. cbn [bind].
+  unfold sp_bin_c; cbn [cbits cval]. rewrite Z.eqb_refl. cbn [negb sp_bin]. unfold s_cmpltu.
+  destruct (a <? r); reflexivity.
+Qed.
+
+Ltac norm :=
+  repeat progress (cbn [expr_const e_bits new_big cbits Z.eqb Z.leb Z.compare Pos.compare Pos.compare_cont negb orb bind is_cmp Pos.eqb];
+                   rewrite ?Bl, ?Br, ?Bres).
+
+Lemma set_sf_den : exists e, set_sf result = Ok (OAssign (flag_scalar n_SF) e) /\
+  den en e = Ok (mkc 1 (X86.b2z (X86.msb w r))).
+Proof.
+  unfold set_sf, mk_bin, mk_ext.
+  widths; norm; (eexists; split; [reflexivity|]); cbn [den bind]; rewrite Dres; cbn [bind];
+    rewrite <- (sf_correct _ r) by (unfold width_ok; tauto || assumption);
+    cbn; unfold s_shr, U; cbn; reflexivity.
+Qed.
+
+Lemma set_of_den sub : exists e, set_of result lhs rhs sub = Ok (OAssign (flag_scalar n_OF) e) /\
+  den en e = Ok (mkc 1 (of_value w a b r sub)).
+Proof.
+  unfold set_of, mk_bin, mk_ext.
+  widths; destruct sub; norm; (eexists; split; [reflexivity|]); cbn [den bind]; rewrite Dl, Dr, Dres; cbn [bind];
+    cbn; unfold of_value, s_shr, s_and, s_xor, U; cbn; reflexivity.
+Qed.
+End FlagHelpers.
